@@ -225,7 +225,14 @@ impl<R: Read> LineProcessor<R> {
     pub fn count_lines(&mut self) -> Result<usize> {
         let mut count = 0;
         while self.read_next_line()? {
-            if !self.config.skip_empty_lines || !self.line_buffer.trim().is_empty() {
+            // Same rule as process_lines: a line is skipped only if it is empty
+            // after the configured trimming
+            let line = if self.config.trim_whitespace {
+                self.line_buffer.trim()
+            } else {
+                &self.line_buffer
+            };
+            if !self.config.skip_empty_lines || !line.is_empty() {
                 count += 1;
             }
         }
